@@ -1003,8 +1003,29 @@ def run_impl(case: dict) -> dict:
             decode = {'errors': dcanon, 'other': dother, 'is_valid': schema.is_valid(resource, namespaces=nsarg)}
         except Exception as exc:       # noqa: BLE001  (reported as a failing input by `evaluate`)
             decode = {'raised': type(exc).__name__ + ': ' + str(exc)[:200]}
+    # ---- third observation: STREAMED / PATH-SELECTED validation (the ancestors-tracking branch of
+    # XMLSchemaBase.iter_errors: a lazy resource of depth d yields the elements of level d one by one, a path=
+    # argument the selected elements; the identity counters of the scope elements ABOVE them are created / re-rooted
+    # by iter_errors itself each time the ancestor chain changes)
+    stream = None
+    if case.get('stream') and not crashed:
+        import io
+        mode = case['stream']
+        try:
+            if mode.startswith('lazy'):
+                serrs = list(schema.iter_errors(xmlschema.XMLResource(io.StringIO(text), lazy=int(mode[4:])),
+                                                namespaces=nsarg))
+            else:
+                serrs = list(schema.iter_errors(text, path=qual_xpath(mode[5:], bool(case.get('tns'))),
+                                                namespaces=dict(nsarg or {}, **({'t': TNS} if case.get('tns') else {}))))
+            scl = set()
+            for k, a, _, _ in canonical(serrs)[0]:
+                scl.add((k, a) if k in ('dup', 'notfound') else (k,))
+            stream = {'clauses': scl, 'other': canonical(serrs)[1]}
+        except Exception as exc:       # noqa: BLE001
+            stream = {'raised': type(exc).__name__ + ': ' + str(exc)[:200]}
     return {'errors': canon, 'seq': seq, 'other': other, 'crash': crashed, 'clauses': clauses, 'req': req,
-            'decode': decode,
+            'decode': decode, 'stream': stream,
             'names': names, 'cons': cons_json, 'n_unpaired': sum(1 for e in elems if id(e) not in decl_of)}
 
 
@@ -1126,6 +1147,27 @@ def evaluate(ctx: Ctx, case: dict, reqs: Optional[list], pend: Optional[list], t
     if impl['n_unpaired'] and not impl['crash']:
         ctx.mismatch('instance elements not paired with a declaration', case, impl['n_unpaired'], 0)
         return
+    st = impl.get('stream')
+    if st is not None:
+        ctx.count('observation:stream(%s)' % case['stream'])
+        if 'raised' in st:
+            ctx.failure('streamed / path-selected validation raised instead of reporting errors', case, st)
+        elif st['other']:
+            ctx.mismatch('streamed validation reports other errors', case, st['other'][:3], None)
+        else:
+            deep = case['stream'] not in ('lazy1', 'path:sec')
+            for cl in sorted(st['clauses'] ^ set(orc['clauses'])):
+                side = 'impl-only' if cl in st['clauses'] else 'spec-only'
+                if cl[0] == 'notfound' and side == 'spec-only' and deep:
+                    # C08-F10: the keyref of a scope element ABOVE the yielded level is never checked
+                    ctx.known_hit('C08-F10')
+                    ctx.count('known:C08-F10')
+                else:
+                    ctx.failure('streamed / path-selected validation (%s): %s %s' % (
+                        case['stream'], 'error reported although the rule holds:' if side == 'impl-only'
+                        else 'violation not reported:', '/'.join(cl)), case,
+                        {'stream': case['stream'], 'clause': list(cl), 'side': side,
+                         'stream_clauses': sorted(st['clauses']), 'spec_clauses': sorted(orc['clauses'])})
     dec = impl.get('decode')
     if dec is not None:
         ctx.count('observation:decode(lax,%s)+is_valid' % case['decode'])
@@ -1822,6 +1864,34 @@ def id_depth_cases(ctx: Ctx):
                            'doc': _leaf('eidx', val, idref=r, idrefs=rs)}
 
 
+def stream_scope_cases(ctx: Ctx):
+    """streamed / path-selected validation x REPEATED scope elements above the yielded level: key / unique K (and
+    keyref R) declared on `sec`, documents root > sec x 3 > rows; every observation mode lazy depth 1 / 2 / 3,
+    path= sec, sec/*, */item; tables drawn from every small sec content (2 items over {absent, 1, 01, 2} + optional
+    reference): the 2nd and 3rd occurrence of the scope must be judged with their own, fresh tables"""
+    import random as _r
+    F = [{'name': 'f1', 'loc': 'attr', 'ty': 'integer', 'rloc': 'attr', 'rty': 'integer'}]
+    vals = [None, ['n1', '1'], ['n1', '01'], ['n2', '2']]
+    modes = ['lazy1', 'lazy2', 'lazy3', 'path:sec', 'path:sec/*', 'path:*/item']
+    rnd = _r.Random(ctx.seed if hasattr(ctx, 'seed') else 0)
+    n = 0
+    for kind in ('key', 'unique'):
+        for withref in (False, True):
+            cons = [{'name': 'K', 'kind': kind, 'on': 'sec', 'sel': 'item', 'fields': ['@f1'], 'refer': None}]
+            if withref:
+                cons.append({'name': 'R', 'kind': 'keyref', 'on': 'sec', 'sel': 'ref', 'fields': ['@f1'], 'refer': 'K'})
+            secs = [[_row('item', a), _row('item', b)] + ([_row('ref', r)] if r else [])
+                    for a in vals for b in vals[:3] for r in ([None] + vals[1:3] if withref else [None])]
+            for _ in range(ctx.pick(60, 400)):
+                combo = [rnd.choice(secs) for _ in range(3)]
+                for mode in modes:
+                    n += 1
+                    kids = [{'tag': 'sec', 'vals': [], 'kids': [dict(r) for r in k], 'id': None, 'idref': None}
+                            for k in combo]
+                    yield {'v': '1.0', 'recursive': False, 'fields': F, 'cons': cons, 'src': 'text', 'stream': mode,
+                           'doc': {'tag': 'root', 'vals': [], 'kids': kids, 'id': None, 'idref': None}}
+
+
 def run(ctx: Ctx, driver_ok: bool) -> None:
     load_findings(ctx)
     detect_mode()
@@ -1858,6 +1928,8 @@ def run(ctx: Ctx, driver_ok: bool) -> None:
         go(case, 'exhaustive-falsy')
     for case in id_depth_cases(ctx):
         go(case, 'exhaustive-id-depth')
+    for case in stream_scope_cases(ctx):
+        go(case, 'stream-scope')
     n = ctx.pick(3000, 30000)
     for i in range(n):
         go(random_case(ctx.rng, big=(i % 5 == 4)), 'random')
